@@ -1289,6 +1289,15 @@ impl St {
                 need(a, 1)?;
                 Ok(envops::cat(&parse_path(a[0])?))
             }
+            "chmod" => {
+                need(a, 2)?;
+                let m = u32::from_str_radix(a[1], 8).map_err(|_| Bad::Arg)?;
+                Ok(envops::chmod(&parse_path(a[0])?, m))
+            }
+            "mode" => {
+                need(a, 1)?;
+                Ok(envops::mode(&parse_path(a[0])?))
+            }
             "stat" => {
                 need(a, 1)?;
                 Ok(envops::stat(&parse_path(a[0])?))
